@@ -12,3 +12,7 @@ impl<A> ActorHandle<A> {
                 !self.has_detach() ==> same_world(old(w), final(w))
     { unimplemented!() }
 }
+// what `wf` says is about the handle's cell and task only (prelude/handle_spec.rs: the definition unit spawn proves against)
+pub broadcast axiom fn handle_wf_frame<A>(h: &ActorHandle<A>, a: &World, b: &World)
+    requires #[trigger] h.wf(a), a.cells == b.cells, a.tasks == b.tasks
+    ensures #[trigger] h.wf(b);
